@@ -35,6 +35,7 @@ type Engine struct {
 	funcIDs  map[*ssa.Function]int
 	fnByKey  map[string]*ssa.Function
 	loadSecs float64
+	extCache map[string]*ssa.Function
 }
 
 func loadEngine(root string) (*Engine, error) {
@@ -116,6 +117,9 @@ func loadEngine(root string) (*Engine, error) {
 	}
 	e.contracts = cs
 	for k, fc := range cs.Funcs {
+		if strings.Contains(k, "#") {
+			continue // additional verification unit of the same function (e.g. another variant); callers use the primary contract
+		}
 		if fn, ok := e.fnByKey[k]; ok {
 			cs.byFn[fn] = fc
 		}
@@ -480,7 +484,11 @@ func (e *Engine) guardedSVs(vc *VC, class string) []string {
 var callsRe = regexp.MustCompile(`(?:calls|callarg)\("([^"]+)"(?:\s*,\s*[^,)]+\s*,\s*(\d+))?`)
 
 func (e *Engine) verifyFunction(fc *FuncContract) (*VC, error) {
-	fn, ok := e.fnByKey[fc.Pkg+"."+fc.Key]
+	fnKey := fc.Key
+	if i := strings.Index(fnKey, "#"); i >= 0 {
+		fnKey = fnKey[:i]
+	}
+	fn, ok := e.fnByKey[fc.Pkg+"."+fnKey]
 	if !ok {
 		return nil, fmt.Errorf("contract target %s.%s not found in the current tree", fc.Pkg, fc.Key)
 	}
@@ -604,6 +612,15 @@ func (e *Engine) verifyFunction(fc *FuncContract) (*VC, error) {
 			fmt.Sprintf("(not %s)", vc.get(exit, "G_dirty")), fn.Pos())
 	}
 	vc.cover(exit, "exit", "some exit of the function is reachable under the precondition", fn.Pos())
+	for i, r := range fc.Reachable {
+		t, err := vc.specBoolAt(fr, exit, vc.entry, r, nil)
+		if err != nil {
+			return vc, fmt.Errorf("reachable %d of %s: %v", i+1, fc.Key, err)
+		}
+		rs := exit.clone()
+		rs.pc = vc.def("Bool", fmt.Sprintf("(and %s %s)", exit.pc, t), "pc")
+		vc.cover(rs, fmt.Sprintf("reachable%d", i+1), "an exit satisfying '"+r+"' is reachable (the contract is not vacuous there)", fn.Pos())
+	}
 	return vc, nil
 }
 
@@ -775,4 +792,21 @@ func (vc *VC) assignCheckWhole(fr *Frame, st *State, sv string, pos token.Pos) {
 	}
 	vc.oblige(st, "frame", fmt.Sprintf("%s%s.whole.%d", fnTagDot(fr), sv, vc.ordinal("frame/"+fnTagDot(fr)+sv)),
 		"callee may modify "+sv+" of any object; the caller's modifies clause must allow that", "false", pos)
+}
+
+
+// extByShort finds a dependency function by its short name (for assumed contracts).
+func (e *Engine) extByShort(name string) *ssa.Function {
+	e.mu.Lock()
+	if e.extCache == nil {
+		e.extCache = map[string]*ssa.Function{}
+		for fn := range ssautil.AllFunctions(e.prog) {
+			if e.inModule(fn) {
+				continue
+			}
+			e.extCache[shortFuncName(fn)] = fn
+		}
+	}
+	e.mu.Unlock()
+	return e.extCache[name]
 }
